@@ -193,6 +193,14 @@ type vWire struct {
 	eof         bool          // set by feedEOF: once the chunks are exhausted Read reports EOF instead of waiting
 }
 
+// feed: the peer of a live wire sends one more chunk (a reader blocked on the wire wakes up).
+func (w *vWire) feed(chunk string) {
+	w.chunks = append(w.chunks, chunk)
+	old := w.more
+	w.more = make(chan struct{})
+	close(old)
+}
+
 // feedEOF: the peer of a live wire sends one more chunk and then closes its end
 // (the reader gets the chunk, then io.EOF).
 func (w *vWire) feedEOF(chunk string) {
